@@ -7,24 +7,45 @@ dense reference written here: residual of the assembled system, a 3-line Euler l
 assembled at the documented time, restriction at coinciding nodes/times, an independently called interpolant
 otherwise, then the observation map; PDEModel.forward is compared with the harness-composed
 par2fun -> assemble -> solve -> observe pipeline and PDEModel.gradient with direction @ J (or it raises).
+
+Representation facet: the parameter handed in and every piece PDE_form hands back (initial condition, source / right-hand
+side, operator) is also given as an integer / bool / float32 ndarray, a list, a sparse matrix (integer valued data, so that all
+representations carry the same numbers); the oracle is the same float64 reference run on np.asarray(piece, float), plus the
+differential model(x) == model(x as a float64 array).  Input integrity: nothing PDE_form or the caller hands to the library may
+be modified in place by assemble / solve / observe / PDEModel.forward, and observe may not modify the solution it is given.
 """
 import itertools
 import numpy as np
 from vfw.core import CellResult, close
 from vfw import refs
+from checks import _c18_repr as R
 
 PROPERTY = "C18"
 RULE = ("cells = {steady: form x solver x grid relation x observation map x model domain geometry x gradient hook; "
         "time dependent: form x time grid (uniform/non-uniform, K steps) x {forward,backward} Euler x time_obs x grid relation x "
         "observation map (+ solver variants for backward Euler); shipped Poisson1D/Heat1D models} - the full product; each cell "
         "drives one PDE object through the parameter sequence x1,x2,x1 and compares solve(), observe(), PDEModel.forward and "
-        "PDEModel.gradient with a dense reference.  A cell is non-trivial when at least one observation was returned (not refused)")
+        "PDEModel.gradient with a dense reference.  Representation facet: {representation of the parameter} x {representation of each "
+        "piece PDE_form returns: initial condition, source / right-hand side, operator} over float64 / int64 / bool / float32 ndarray, "
+        "list, (operator) csr float / csr int - every parameter representation with dtype-preserving pieces, then one piece at a time "
+        "(thorough: also the complete product), crossed with both stepping methods, all time_obs and all grid relations; the parameter "
+        "representation is also crossed with the float valued forms and the shipped models; a failure in a representation cell that the "
+        "same cell with float64 data shows as well keeps its ordinary signature, otherwise the representation is the signature facet.  "
+        "In every steady / time-dependent cell all objects handed to the library (PDE_form's return values, the parameter, the model "
+        "input, the solution given to observe) are compared with snapshots taken at hand-over.  "
+        "A cell is non-trivial when at least one observation was returned (not refused)")
 BOUND = {
     "quick": "steady: 3 forms (N=6 nodes) x 6 solvers x 6 grid relations x 3 maps (+3 domain geometries x 3 gradient hooks on the "
              "default solver); time dependent: 3 forms (N=5) x {uniform,non-uniform} x K in {2,3,4,6} x 2 methods x 6 time_obs (+ the capitalised FINAL on 2 grid relations) x 6 grid "
              "relations x 3 maps, + 5 backward-Euler solver variants x K in {3,4}; shipped: Poisson1D dim {6,9} and Heat1D dim {5,8} x "
-             "field {None,Step,KL} x observation_grid_map {None, subset}; 2 parameter points per cell",
-    "thorough": "as quick with K in 2..6, N in {5,7} for the time-dependent forms, N in {6,9} steady, and all 3 value catalogues in one run",
+             "field {None,Step,KL} x observation_grid_map {None, subset} x 5 parameter representations; 2 parameter points per cell.  "
+             "Representation cells: time dependent (N=5, non-uniform K=4, integer valued time dependent operator/source) 19 representation "
+             "combinations x 2 methods x 6 time_obs x 6 grid relations; steady (N=6) 15 combinations x {default, numpy | spsolve} x 6 grid "
+             "relations; parameter representation x 3 float forms x {equal, offnode} (steady) / x 2 methods x {final, all, off-nodes} x "
+             "{equal, offnode} (time dependent, K=3)",
+    "thorough": "as quick with K in 2..6, N in {5,7} for the time-dependent forms, N in {6,9} steady, and all 3 value catalogues in one run; "
+                "representation cells also on the uniform K=3 grid, plus (first catalogue) the complete product 5 x 6 x 6 x 8 of "
+                "(parameter, initial condition, source, operator) representations x 2 methods x {final, all} x {equal, offnode}",
 }
 ASSUMPTIONS = [
     "PDE_form callables, linear solvers and observation maps are harness-supplied (they are inputs of the property); the assembled "
@@ -37,6 +58,12 @@ ASSUMPTIONS = [
     "a refused configuration (too few nodes for the spline, no grid given, unsupported type) is allowed wherever the library raises",
     "direct solvers 1e-9, iterative solver (cg, rtol 1e-13) 1e-7; Jacobian sanity check by Richardson at 1e-5",
     "observation points outside the solution grid / time interval (extrapolation) are not covered",
+    "representations: a real ndarray of any dtype (float64, int64, bool, float32) must be handled like the float64 array of the same "
+    "values (float32 data: 1e-6 / 1e-5, the arithmetic may run in single precision); lists and sparse operators are not ndarrays and "
+    "may be refused (raise) but not answered wrongly; for the steady PDE the types of A and b are those the linear solver accepts - "
+    "a raise is passed on when the solver called directly on (A, b) raises too; complex data and other integer widths are not covered",
+    "input integrity is demanded of the library only (harness-supplied solvers and maps do not write to their arguments); the returned "
+    "observation may alias the solution",
 ]
 
 STEADY_FORMS = ["poisson", "rhs-param", "both"]
@@ -89,6 +116,46 @@ def cells(tier, seed):
                                             "time_obs": tobs, "grids": "equal", "map": "none", "solver": solver, "cat": k})
                         out.append({"kind": "timedep", "form": form, "N": N, "tgrid": tg, "K": K, "method": "forward_euler",
                                     "time_obs": "final", "grids": "equal", "map": "none", "solver": "sparse-op", "cat": k})
+        # representation facet: dtype / container of the parameter and of every piece PDE_form returns (integer valued data)
+        for reps in _steady_rep_combos():
+            solvers = ("spsolve",) if reps[2].startswith("csr") else ("default", "numpy")
+            for solver in solvers:
+                for rel in GRID_RELS:
+                    out.append({"kind": "steady", "form": "repr", "reps": list(reps), "N": 6, "solver": solver, "grids": rel, "map": "none",
+                                "geom": "int", "hook": "none", "cat": k})
+        # ... and the representation of the parameter alone on the float valued forms (pieces stay float64 whatever the parameter is)
+        for prep in R.REPS:
+            for form in STEADY_FORMS:
+                for rel in ("equal", "offnode"):
+                    out.append({"kind": "steady", "form": form, "N": 6, "solver": "default", "grids": rel, "map": "none",
+                                "geom": "int", "hook": "none", "prep": prep, "cat": k})
+            for form in TD_FORMS:
+                for method in ("forward_euler", "backward_euler"):
+                    for tobs in ("final", "all", "off-nodes"):
+                        for rel in ("equal", "offnode"):
+                            out.append({"kind": "timedep", "form": form, "N": 5, "tgrid": "nonuniform", "K": 3, "method": method,
+                                        "time_obs": tobs, "grids": rel, "map": "none", "solver": "default", "prep": prep, "cat": k})
+        for tg, K in ((("nonuniform", 4),) if q else (("nonuniform", 4), ("uniform", 3))):
+            for reps in _td_rep_combos(False):
+                for method in ("forward_euler", "backward_euler"):
+                    for tobs in TIME_OBS:
+                        if tobs == "FINAL":
+                            continue
+                        for rel in GRID_RELS:
+                            out.append({"kind": "timedep", "form": "repr", "reps": list(reps), "N": 5, "tgrid": tg, "K": K, "method": method,
+                                        "time_obs": tobs, "grids": rel, "map": "none",
+                                        "solver": "sparse-op" if reps[3].startswith("csr") else "default", "cat": k})
+        if not q and k == cats[0]:      # the complete product of representations on a reduced observation product
+            one = set(_td_rep_combos(False))
+            for reps in _td_rep_combos(True):
+                if reps in one:
+                    continue
+                for method in ("forward_euler", "backward_euler"):
+                    for tobs in ("final", "all"):
+                        for rel in ("equal", "offnode"):
+                            out.append({"kind": "timedep", "form": "repr", "reps": list(reps), "N": 5, "tgrid": "nonuniform", "K": 3, "method": method,
+                                        "time_obs": tobs, "grids": rel, "map": "none",
+                                        "solver": "sparse-op" if reps[3].startswith("csr") else "default", "cat": k})
         # E1 add-on: grid / observation-time re-assignment histories on ONE live PDE object (non-initial states)
         for cls in ("steady", "timedep"):
             for form in ((STEADY_FORMS[:2] if q else STEADY_FORMS) if cls == "steady" else (TD_FORMS[:2] if q else TD_FORMS)):
@@ -99,7 +166,27 @@ def cells(tier, seed):
             for dim in dims:
                 for field in ("None", "Step", "KL"):
                     for og in ("None", "subset"):
-                        out.append({"kind": "shipped", "problem": prob, "dim": dim, "field": field, "obsmap": og, "cat": k})
+                        for prep in R.REPS:
+                            out.append({"kind": "shipped", "problem": prob, "dim": dim, "field": field, "obsmap": og, "prep": prep, "cat": k})
+    return out
+
+
+def _steady_rep_combos():
+    """(parameter, rhs, operator): every parameter representation with dtype-preserving ('raw') pieces, then one piece at a time"""
+    out = [(rp, "raw", "raw") for rp in R.REPS]
+    out += [("f64", r, "f64") for r in R.REPS[1:]]
+    out += [("f64", "f64", r) for r in R.OP_REPS[1:]]
+    return out
+
+
+def _td_rep_combos(full):
+    """(parameter, initial condition, source, operator)"""
+    if full:
+        return [(rp, ri, rs, ro) for rp in R.REPS for ri in ["raw"] + R.REPS for rs in ["raw"] + R.REPS for ro in ["raw"] + R.OP_REPS]
+    out = [(rp, "raw", "raw", "raw") for rp in R.REPS]
+    out += [("f64", r, "f64", "f64") for r in R.REPS[1:]]
+    out += [("f64", "f64", r, "f64") for r in R.REPS[1:]]
+    out += [("f64", "f64", "f64", r) for r in R.OP_REPS[1:]]
     return out
 
 
@@ -310,6 +397,34 @@ class _Once:
         self.res.fail(signature, message, **kw)
 
 
+class _Attribution:
+    """Signature of a failure seen in a representation cell: when the same configuration fed with the same integer valued data
+    as plain float64 arrays fails as well, the defect is not one of representation and keeps its ordinary signature; otherwise
+    the discriminating facet is the representation (e.g. 'ic=int') and replaces the configuration facet."""
+
+    def __init__(self, cell, rfacet):
+        self.cell = cell
+        self.rfacet = rfacet
+        self.independent = None
+
+    def __call__(self, base):
+        if not self.rfacet:
+            return base
+        if self.independent is None:
+            reps = self.cell.get("reps")
+            if reps is not None and all(r == "f64" for r in reps):
+                self.independent = True
+            else:
+                c2 = dict(self.cell, reps=["f64"] * len(reps), solver="default") if reps is not None else dict(self.cell, prep="f64")
+                r2 = CellResult(c2)
+                try:
+                    (_eval_timedep if c2["kind"] == "timedep" else _eval_steady)(c2, r2)
+                    self.independent = bool(r2.failures)
+                except Exception:
+                    self.independent = True
+        return base if self.independent else base.rsplit("|", 1)[0] + "|" + self.rfacet
+
+
 def _obs_without_map(pde, sol):
     """library observation with the observation map switched off (to attribute a mismatch to grid/time handling or to the map)"""
     mp = pde.observation_map
@@ -331,15 +446,35 @@ def _eval_steady(cell, res):
     N, k = cell["N"], cell["cat"]
     g, dx = _grid(N)
     sparse_op = cell["solver"] == "spsolve"
-    form, xs, pdim = _steady_form(cell["form"], N, k, sparse=sparse_op)
+    reps = tuple(cell["reps"]) if cell["form"] == "repr" else None
+    prep = reps[0] if reps is not None else cell.get("prep")      # representation of the parameter (None: the float catalogue values)
+    if reps is not None:
+        form, xs, pdim = R.steady_form_repr(N, k, reps)
+        rfac = "," + R.repr_facet(reps, ("param", "rhs", "op"))
+    else:
+        form, xs, pdim = _steady_form(cell["form"], N, k, sparse=sparse_op)
+        rfac = ""
+        if prep is not None:
+            xs = [R.cast(R.small_int(x), prep) for x in xs]
+            rfac = "" if prep == "f64" else ",param=%s" % prep
     fn, kw, tol, has_info = _solver(cell["solver"])
+    if reps is not None and R.has_f32(reps):
+        tol = 1e-5                      # single precision data: the solver may work in single precision
     spy = _Spy(fn) if fn is not None else None
     mp = _map(cell["map"])
     gsol, gobs, nodes = _grids(cell["grids"], g)
     facet = "solver=%s" % cell["solver"]
     once = _Once(res)
+    rec = R.Recorder(form, ("operator", "rhs"))
+    sg = _Attribution(cell, rfac[1:])
+
+    def intact(stage):
+        bad = rec.altered()
+        if bad is not None:
+            once("intact", "C18|SteadyStateLinearPDE|input-altered|piece=%s" % bad, "%s handed to the library (by PDE_form / the caller) was "
+                 "modified in place during %s" % (bad, stage))
     try:
-        pde = SteadyStateLinearPDE(form, linalg_solve=spy, linalg_solve_kwargs=kw, grid_sol=gsol, grid_obs=gobs, observation_map=mp)
+        pde = SteadyStateLinearPDE(rec, linalg_solve=spy, linalg_solve_kwargs=kw, grid_sol=gsol, grid_obs=gobs, observation_map=mp)
     except Exception as e:
         res.refused += 1
         res.outcomes.add("construct-refused:" + type(e).__name__)
@@ -388,29 +523,43 @@ def _eval_steady(cell, res):
     nobs = 0
     for step, x in enumerate([xs[0], xs[1], xs[0]]):
         xf = p2f(x)
-        A_ref, b_ref = form(xf)
-        A_ref, b_ref = _dense(A_ref), np.asarray(b_ref, float)
+        A_raw, b_raw = form(xf)
+        A_ref, b_ref = _dense(A_raw), np.asarray(b_raw, float)
         u_ref = np.linalg.solve(A_ref, b_ref)
-        res.state("%s:x%d" % (cell["form"], step))
+        res.state("%s:x%d" % (cell["form"], step) + rfac)
         # ---- assemble + solve -------------------------------------------------------------
         if spy is not None:
             spy.calls.clear()
         res.transitions += 1
         try:
-            pde.assemble(xf.copy())
+            pde.assemble(rec.watch("parameter", R.xcopy(xf)))
             sol, info = pde.solve()
         except Exception as e:
             res.refused += 1
             res.outcomes.add("solve-raises:" + type(e).__name__)
-            once("solve", "C18|SteadyStateLinearPDE|solve-raises|%s" % facet, "assemble/solve raised %r with a solver that accepts the "
+            if reps is not None:
+                # the types of A and b are those the linear solver accepts: a solver that refuses them itself may be passed on
+                import scipy.linalg
+                try:
+                    (fn or scipy.linalg.solve)(A_raw, b_raw, **(kw or {}))
+                except Exception:
+                    res.outcomes.add("solver-refuses-type" + rfac)
+                    res.nontrivial = False
+                    return
+            once("solve", sg("C18|SteadyStateLinearPDE|solve-raises|%s" % facet), "assemble/solve raised %r with a solver that accepts the "
                      "assembled operator" % (e,))
             return
-        sol = np.asarray(sol, float).ravel()
+        intact("assemble/solve")
+        try:
+            sol = np.asarray(sol, float).ravel()
+        except Exception as e:
+            once("solve", sg("C18|SteadyStateLinearPDE|solution-type|%s" % facet), "solution is not a real vector: %r" % (e,))
+            return
         res.evaluations += 1
         scale = max(1.0, float(np.linalg.norm(b_ref)))
         rn = float(np.linalg.norm(A_ref @ sol - b_ref)) if sol.shape == b_ref.shape else np.inf
         if not rn <= tol * max(scale, float(np.linalg.norm(A_ref, 2) * np.linalg.norm(sol))) or not close(sol, u_ref, max(tol, 1e-9) * 100):
-            once("solve", "C18|SteadyStateLinearPDE|residual|%s" % ("first-assembly" if step == 0 else "reassembled"),
+            once("solve", sg("C18|SteadyStateLinearPDE|residual|%s" % ("first-assembly" if step == 0 else "reassembled")),
                  "form=%s: solution does not satisfy the system assembled for the supplied parameter (step %d of x1,x2,x1): ||Au-b|| = %.3g"
                  % (cell["form"], step, rn), sol=sol, ref=u_ref)
             return
@@ -434,11 +583,15 @@ def _eval_steady(cell, res):
         res.transitions += 1
         obs = None
         obs_ok = True
+        sol_keep = sol.copy()
         try:
             obs = pde.observe(sol)
         except Exception as e:
             res.refused += 1
             res.outcomes.add("observe-refused:" + type(e).__name__)
+        intact("observe")
+        if not np.array_equal(sol, sol_keep):
+            once("sol-intact", "C18|SteadyStateLinearPDE|solution-altered|by=observe", "observe() modified the solution array it was given")
         if obs is not None:
             nobs += 1
             res.evaluations += 1
@@ -448,7 +601,7 @@ def _eval_steady(cell, res):
                 ofacet = "grids=%s" % cell["grids"]
                 if mp is not None and _matches(_obs_without_map(pde, sol), _steady_obs_refs(u_ref, g, nodes, None)[0], otol):
                     ofacet = "map=%s" % cell["map"]      # grid handling is right without the map: the map (order) is at fault
-                once("observe", "C18|SteadyStateLinearPDE|observe|%s" % ofacet,
+                once("observe", sg("C18|SteadyStateLinearPDE|observe|%s" % ofacet),
                          "observed %s != %s (%s)" % (np.round(np.asarray(obs, float), 8).tolist(), np.round(cands[0], 8).tolist() if cands else None,
                                                      "restriction at coinciding nodes" if exact else "no standard interpolant of the solution matches"),
                          obs=obs, ref=cands[0] if cands else None)
@@ -456,19 +609,35 @@ def _eval_steady(cell, res):
         # ---- PDEModel.forward -------------------------------------------------------------
         if model is not None:
             res.transitions += 1
+            xin = rec.watch("model-input", R.xcopy(x))
             try:
-                y = model.forward(x.copy())
+                y = model.forward(xin)
             except Exception as e:
                 y = None
                 res.refused += 1
                 res.outcomes.add("forward-refused:" + type(e).__name__)
-                if obs is not None:
-                    once("forward", "C18|PDEModel|forward-raises|geom=%s" % cell["geom"], "forward raised %r although assemble/solve/observe succeed" % (e,))
+                if obs is not None and not isinstance(x, list):      # a list is not an ndarray: the model may refuse it
+                    once("forward", sg("C18|PDEModel|forward-raises|geom=%s" % cell["geom"]), "forward raised %r although assemble/solve/observe succeed" % (e,))
+            intact("PDEModel.forward")
+            ftol = max(tol, 1e-9) * 100 if not exact else max(1e-10, tol * 100 if tol > 1e-9 else 1e-10)
             if y is not None and cands and obs_ok:      # a wrong observe() is already reported; forward composes it
                 res.evaluations += 1
-                if not _matches(y, cands, max(tol, 1e-9) * 100 if not exact else max(1e-10, tol * 100 if tol > 1e-9 else 1e-10)):
-                    once("forward", "C18|PDEModel|forward|geom=%s" % cell["geom"] + ("" if step == 0 else ",re-evaluated"),
+                if not _matches(y, cands, ftol):
+                    once("forward", sg("C18|PDEModel|forward|geom=%s" % cell["geom"] + ("" if step == 0 else ",re-evaluated")),
                              "model output differs from assemble-solve-observe of par2fun(x) (step %d of x1,x2,x1)" % step, y=y, ref=cands[0])
+            if y is not None and prep not in (None, "f64"):
+                # differential oracle: the same values as a float64 array
+                res.transitions += 1
+                try:
+                    yf = model.forward(R.as_float(x))
+                except Exception as e:
+                    yf = None
+                    res.outcomes.add("forward-float-refused:" + type(e).__name__)
+                if yf is not None:
+                    res.evaluations += 1
+                    if not _matches(y, [yf], max(ftol, 1e-10)):
+                        once("forward-repr", "C18|PDEModel|forward-representation|pde=SteadyStateLinearPDE" + rfac,
+                             "model(x) != model(x as float64 array) for the same values", y=y, ref=yf)
     # ---- gradient -------------------------------------------------------------------------
     if model is not None and cell["hook"] != "skip":
         x = xs[1]
@@ -592,18 +761,39 @@ def _eval_timedep(cell, res):
     N, k, K, method = cell["N"], cell["cat"], cell["K"], cell["method"]
     g, dx = _grid(N)
     sparse_op = cell["solver"] == "sparse-op"
-    form, xs, pdim, t0 = _td_form(cell["form"], N, k, sparse=sparse_op)
+    reps = tuple(cell["reps"]) if cell["form"] == "repr" else None
+    prep = reps[0] if reps is not None else cell.get("prep")      # representation of the parameter (None: the float catalogue values)
+    if reps is not None:
+        form, xs, pdim, t0 = R.td_form_repr(N, k, reps)
+        rfac = "," + R.repr_facet(reps, ("param", "ic", "source", "op"))
+    else:
+        form, xs, pdim, t0 = _td_form(cell["form"], N, k, sparse=sparse_op)
+        rfac = ""
+        if prep is not None:
+            xs = [R.cast(R.small_int(x), prep) for x in xs]
+            rfac = "" if prep == "f64" else ",param=%s" % prep
     times = _times(cell["tgrid"], K, t0)
     fn, kw, tol, has_info = _solver(cell["solver"])
+    if reps is not None and R.has_f32(reps):
+        tol = 1e-6                      # single precision data: the arithmetic may be carried out in single precision
+    rtol_fwd = max(tol, 1e-9)
     spy = _Spy(fn) if fn is not None else None
+    rec = R.Recorder(form, ("operator", "source", "initial_condition"))
+    sg = _Attribution(cell, rfac[1:])
     mp = _map(cell["map"])
     gsol, gobs, nodes = _grids(cell["grids"], g)
     targ, teff = _time_obs(cell["time_obs"], times)
     facet = "method=%s" % method
     once = _Once(res)
     tfac = "final" if cell["time_obs"] in ("final", "FINAL", "final-list") else cell["time_obs"]
+
+    def intact(stage):
+        bad = rec.altered()
+        if bad is not None:
+            once("intact", "C18|TimeDependentLinearPDE|input-altered|piece=%s" % bad, "%s handed to the library (by PDE_form / the caller) was "
+                 "modified in place during %s" % (bad, stage))
     try:
-        pde = TimeDependentLinearPDE(form, times.copy(), time_obs=targ, method=method, linalg_solve=spy, linalg_solve_kwargs=kw,
+        pde = TimeDependentLinearPDE(rec, times.copy(), time_obs=targ, method=method, linalg_solve=spy, linalg_solve_kwargs=kw,
                                      grid_sol=gsol, grid_obs=gobs, observation_map=mp)
     except Exception as e:
         res.refused += 1
@@ -621,32 +811,38 @@ def _eval_timedep(cell, res):
         res.refused += 1
     nobs = 0
     cands = []
-    for step, x in enumerate([xs[0], xs[1], xs[0]]):
+    # (representation cells: the stale-state sequence x1,x2,x1 is the business of the float cells; two points suffice)
+    for step, x in enumerate([xs[0], xs[1], xs[0]] if reps is None else [xs[0], xs[1]]):
         U_ref = _euler_ref(form, x, times, method)
-        res.state("%s:%s:x%d" % (cell["form"], method, step))
+        res.state("%s:%s:x%d" % (cell["form"], method, step) + rfac)
         if spy is not None:
             spy.calls.clear()
         res.transitions += K
         try:
-            pde.assemble(x.copy())
+            pde.assemble(rec.watch("parameter", R.xcopy(x)))
             U, info = pde.solve()
         except Exception as e:
             res.refused += 1
             res.outcomes.add("solve-raises:" + type(e).__name__)
-            if not sparse_op:
-                once("solve", "C18|TimeDependentLinearPDE|solve-raises|%s,solver=%s" % (facet, cell["solver"]), "assemble/solve raised %r" % (e,))
-            else:
+            if sparse_op or (reps is not None and R.may_refuse(reps)):       # not an ndarray (sparse / list): may be refused
                 res.nontrivial = False
+            else:
+                once("solve", sg("C18|TimeDependentLinearPDE|solve-raises|%s,solver=%s" % (facet, cell["solver"])), "assemble/solve raised %r" % (e,))
             return
-        U = np.asarray(U, float)
+        intact("assemble/solve")
+        try:
+            U = np.asarray(U, float)
+        except Exception as e:
+            once("solve", sg("C18|TimeDependentLinearPDE|solution-type|%s" % facet), "solution is not a real array: %r" % (e,))
+            return
         res.evaluations += 1
         re = ",first-assembly" if step == 0 else ",reassembled"
         if U.shape != U_ref.shape:
-            once("solve", "C18|TimeDependentLinearPDE|solution-shape|%s" % facet, "solution shape %s, expected (nodes, time levels) = %s" % (U.shape, U_ref.shape))
+            once("solve", sg("C18|TimeDependentLinearPDE|solution-shape|%s" % facet), "solution shape %s, expected (nodes, time levels) = %s" % (U.shape, U_ref.shape))
             return
         ltol = max(tol, 1e-9) * 10
         if not close(U[:, 0], U_ref[:, 0], 1e-12):
-            once("solve", "C18|TimeDependentLinearPDE|initial-condition|%s" % re[1:],
+            once("solve", sg("C18|TimeDependentLinearPDE|initial-condition|%s" % re[1:]),
                  "form=%s: level 0 is not PDE_form(x, t_0)[2] (step %d of x1,x2,x1)" % (cell["form"], step), got=U[:, 0], ref=U_ref[:, 0])
             return
         # every stored level satisfies the documented recurrence from the previous STORED level
@@ -655,19 +851,19 @@ def _eval_timedep(cell, res):
             if method == "forward_euler":
                 A, f, _ = form(x, times[j])
                 pred = U[:, j] + dt * (_dense(A) @ U[:, j] + np.asarray(f, float))
-                ok = close(U[:, j + 1], pred, 1e-9)
+                ok = close(U[:, j + 1], pred, rtol_fwd)
             else:
                 A, f, _ = form(x, times[j + 1])
                 M = np.eye(N) - dt * _dense(A)
                 rhs = U[:, j] + dt * np.asarray(f, float)
                 ok = float(np.linalg.norm(M @ U[:, j + 1] - rhs)) <= ltol * max(1.0, float(np.linalg.norm(rhs)), float(np.linalg.norm(M, 2) * np.linalg.norm(U[:, j + 1])))
             if not ok:
-                once("solve", "C18|TimeDependentLinearPDE|recurrence|%s,tgrid=%s%s" % (facet, cell["tgrid"], re if step else ""),
+                once("solve", sg("C18|TimeDependentLinearPDE|recurrence|%s,tgrid=%s%s" % (facet, cell["tgrid"], re if step else "")),
                          "form=" + cell["form"] + ": time level %d does not satisfy the %s recurrence from level %d with operator/source assembled at t=%g and dt=%g"
                          % (j + 1, method, j, times[j] if method == "forward_euler" else times[j + 1], dt), got=U[:, j + 1], ref=U_ref[:, j + 1])
                 return
         if not close(U, U_ref, ltol * 10):
-            once("solve", "C18|TimeDependentLinearPDE|recurrence|%s,tgrid=%s%s" % (facet, cell["tgrid"], re if step else ""),
+            once("solve", sg("C18|TimeDependentLinearPDE|recurrence|%s,tgrid=%s%s" % (facet, cell["tgrid"], re if step else "")),
                  "form=%s: stored levels differ from the reference loop" % cell["form"])
             return
         # info of the last linear solve
@@ -692,11 +888,15 @@ def _eval_timedep(cell, res):
         res.transitions += 1
         obs = None
         obs_ok = True
+        U_keep = U.copy()
         try:
             obs = pde.observe(U)
         except Exception as e:
             res.refused += 1
             res.outcomes.add("observe-refused:" + type(e).__name__)
+        intact("observe")
+        if not np.array_equal(U, U_keep):
+            once("sol-intact", "C18|TimeDependentLinearPDE|solution-altered|by=observe", "observe() modified the solution array it was given")
         if obs is not None:
             nobs += 1
             res.evaluations += 1
@@ -708,7 +908,7 @@ def _eval_timedep(cell, res):
                 ofacet = "time_obs=%s,grids=%s" % (tfac, cell["grids"])
                 if mp is not None and _matches(_obs_without_map(pde, U), _td_obs_refs(U_ref, gsol, times, nodes, teff, None)[0], otol):
                     ofacet = "map=%s" % cell["map"]      # right without the map: the map (order / squeeze) is at fault
-                once("observe", "C18|TimeDependentLinearPDE|observe|%s" % ofacet,
+                once("observe", sg("C18|TimeDependentLinearPDE|observe|%s" % ofacet),
                          "observed %s (shape %s) != %s (shape %s): %s" %
                          (np.round(np.asarray(obs, float), 8).tolist(), np.shape(obs), np.round(cands[0], 8).tolist(), np.shape(cands[0]),
                           "restriction at coinciding nodes/times" if exact else "no standard interpolant of the solution matches"),
@@ -718,26 +918,40 @@ def _eval_timedep(cell, res):
         if model is not None:
             res.transitions += 1
             try:
-                y = model.forward(x.copy())
+                y = model.forward(rec.watch("model-input", R.xcopy(x)))
             except Exception as e:
                 y = None
                 res.refused += 1
                 res.outcomes.add("forward-refused:" + type(e).__name__)
-                if obs is not None and np.asarray(obs).ndim <= 1:
-                    once("forward", "C18|PDEModel|forward-raises|pde=TimeDependentLinearPDE", "forward raised %r although assemble/solve/observe succeed" % (e,))
+                if obs is not None and np.asarray(obs).ndim <= 1 and not isinstance(x, list):   # a list is not an ndarray
+                    once("forward", sg("C18|PDEModel|forward-raises|pde=TimeDependentLinearPDE"), "forward raised %r although assemble/solve/observe succeed" % (e,))
+            intact("PDEModel.forward")
+            otol = 1e-10 if (exact and tol <= 1e-9) else max(tol, 1e-9) * 1000
             if y is not None and cands and obs_ok:
                 res.evaluations += 1
-                otol = 1e-10 if (exact and tol <= 1e-9) else max(tol, 1e-9) * 1000
                 yy = np.asarray(y, float)
                 flat = [np.asarray(c, float).ravel() for c in cands] + [np.asarray(c, float).T.ravel() for c in cands]
                 if not (_matches(yy, cands, otol) or any(yy.ravel().shape == c.shape and close(yy.ravel(), c, otol) for c in flat)):
-                    once("forward", "C18|PDEModel|forward|pde=TimeDependentLinearPDE" + ("" if step == 0 else ",re-evaluated"),
+                    once("forward", sg("C18|PDEModel|forward|pde=TimeDependentLinearPDE" + ("" if step == 0 else ",re-evaluated")),
                              "model output differs from assemble-solve-observe (step %d of x1,x2,x1)" % step, y=y, ref=cands[0])
+            if y is not None and prep not in (None, "f64"):
+                # differential oracle: the same values as a float64 array
+                res.transitions += 1
+                try:
+                    yf = model.forward(R.as_float(x))
+                except Exception as e:
+                    yf = None
+                    res.outcomes.add("forward-float-refused:" + type(e).__name__)
+                if yf is not None:
+                    res.evaluations += 1
+                    if not _matches(y, [yf], max(otol, 1e-10)):
+                        once("forward-repr", "C18|PDEModel|forward-representation|pde=TimeDependentLinearPDE" + rfac,
+                             "model(x) != model(x as float64 array) for the same values", y=y, ref=yf)
     if model is not None:
         res.transitions += 1
         gr = None
         try:
-            gr = model.gradient(np.ones(max(n_out, 1)), xs[0].copy())
+            gr = model.gradient(np.ones(max(n_out, 1)), R.xcopy(xs[0]))
         except Exception as e:
             res.refused += 1
             res.outcomes.add("gradient-refused:" + type(e).__name__)
@@ -745,7 +959,7 @@ def _eval_timedep(cell, res):
             def fwd(z):
                 c = _td_obs_refs(_euler_ref(form, z, times, method), gsol, times, nodes, teff, mp)[0]
                 return float(np.sum(np.asarray(c[0], float))) if c else np.nan
-            gnum = refs.richardson_grad(fwd, xs[0], h=1e-3)[0]
+            gnum = refs.richardson_grad(fwd, R.as_float(xs[0]), h=1e-3)[0]
             if not close(np.asarray(gr, float).ravel(), gnum, 1e-5):
                 res.fail("C18|PDEModel|gradient|hook=none", "returned gradient is not direction @ J of the assemble-solve-observe pipeline",
                          grad=gr, numeric=gnum)
@@ -784,17 +998,28 @@ def _eval_shipped(cell, res):
         return
     pd = model.domain_dim
     geom = model.domain_geometry
+    prep = cell.get("prep", "f64")
+    pfac = "" if prep == "f64" else ",param=%s" % prep
     base = [refs.dyadic_vec(pd, k), refs.dyadic_vec(pd, k + 2, scale=0.5)]
+    if prep != "f64":
+        base = [np.round(4.0 * b) for b in base]        # integer valued, so that every representation carries the same values
     if cell["problem"] == "Poisson1D" and cell["field"] != "KL":
         base = [1.0 + np.abs(b) for b in base]          # a positive conductivity
-    pts = [(b, np.asarray(geom.par2fun(b), float)) for b in base]
+    base = [R.cast(b, prep) for b in base]
+    try:        # reference: the function values of the same numbers given as a float64 array
+        pts = [(b, np.asarray(geom.par2fun(R.as_float(b)), float)) for b in base]
+    except Exception as e:
+        res.refused += 1
+        res.nontrivial = False
+        res.outcomes.add("par2fun-refused:" + type(e).__name__)
+        return
     gsol, gobs = pde.grid_sol, pde.grid_obs
     same = len(gsol) == len(gobs) and bool(np.all(gsol == gobs))
     nodes = None if same else np.asarray(gobs, float)
     nobs = 0
     once = _Once(res)
     for step, (x, f) in enumerate([pts[0], pts[-1], pts[0]]):
-        res.state("%s:%s:x%d" % (cell["problem"], cell["field"], step))
+        res.state("%s:%s:x%d" % (cell["problem"], cell["field"], step) + pfac)
         if cell["problem"] == "Poisson1D":
             A, b = pde.PDE_form(f)
             u = np.linalg.solve(_dense(A), np.asarray(b, float))
@@ -806,17 +1031,25 @@ def _eval_shipped(cell, res):
             res.transitions += len(times) - 1
         res.transitions += 1
         try:
-            y = np.asarray(model.forward(x.copy()), float)
+            y = np.asarray(model.forward(R.xcopy(x)), float)
         except Exception as e:
             res.refused += 1
             res.outcomes.add("forward-refused:" + type(e).__name__)
             continue
         nobs += 1
         res.evaluations += 1
-        if not _matches(y, cands, 1e-9 if exact else 1e-7):
-            once("forward", "C18|%s|forward|obs=%s" % (cell["problem"], cell["obsmap"]) + ("" if step == 0 else ",re-evaluated"),
+        ytol = 1e-5 if prep == "f32" else (1e-9 if exact else 1e-7)
+        if not _matches(y, cands, ytol):
+            signature = "C18|%s|forward|obs=%s" % (cell["problem"], cell["obsmap"]) + ("" if step == 0 else ",re-evaluated")
+            if pfac:        # right for the same values given as a float64 array: the representation of the parameter is the facet
+                try:
+                    if _matches(np.asarray(model.forward(R.as_float(x)), float), cands, ytol):
+                        signature = "C18|%s|forward|%s" % (cell["problem"], pfac[1:])
+                except Exception:
+                    pass
+            once("forward", signature,
                      "shipped model output differs from its own PDE_form driven through assemble-solve-observe", y=y, ref=cands[0] if cands else None)
-        res.outcomes.add("%s:%s:%s:%s" % (cell["problem"], cell["field"], cell["obsmap"], "exact" if exact else "interp"))
+        res.outcomes.add("%s:%s:%s:%s" % (cell["problem"], cell["field"], cell["obsmap"], "exact" if exact else "interp") + pfac)
     if nobs == 0:
         res.nontrivial = False
     res.sample = {"reference_output": cands[0] if cands else None}
